@@ -34,6 +34,14 @@ impl<T> RawTable<T> {
     pub open spec fn headroom_ok(&self) -> bool { self.leftovers.is_some() ==> headroom(self.table@.growth_left, self.lo_len()) }
     pub open spec fn progress_ok(&self) -> bool { self.leftovers.is_some() ==> self.table@.growth_left >= 1 }
     pub open spec fn wf(&self) -> bool { self.sync_ok() && self.headroom_ok() && self.progress_ok() }
+    /// both tables store every element under the hash `h` computes for it
+    pub open spec fn hashed_by_ok<H: Fn(&T) -> u64>(&self, h: H) -> bool {
+        hashed_by(self.table@, h) && (self.leftovers matches Some(lo) ==> hashed_by(lo.table@, h))
+    }
+    /// nothing was added or moved: what is stored now was stored in `o` in the same bucket under the same hash
+    pub open spec fn sub_of(&self, o: RawTable<T>) -> bool {
+        tv_sub(self.table@, o.table@) && (self.leftovers matches Some(lo) ==> o.leftovers.is_some() && tv_sub(lo.table@, o.leftovers->0.table@))
+    }
     pub open spec fn valid_bucket(&self, item: Bucket<T>) -> bool {
         if item.in_main { item.bucket@.table == self.table@.id && self.table@.items.contains_key(item.bucket@.idx) }
         else { self.leftovers.is_some() && item.bucket@.table == self.leftovers->0.table@.id && self.leftovers->0.table@.items.contains_key(item.bucket@.idx) }
@@ -95,5 +103,20 @@ impl<'a, K, V, S> RawVacantEntryMut<'a, K, V, S> {
 impl<'a, K, V, S> RawEntryMut<'a, K, V, S> {
     pub open spec fn re_wf(&self) -> bool { match *self { RawEntryMut::Occupied(o) => o.roe_wf(), RawEntryMut::Vacant(v) => v.rve_wf() } }
     pub open spec fn re_total(&self) -> nat { match *self { RawEntryMut::Occupied(o) => o.table.total(), RawEntryMut::Vacant(v) => v.table.total() } }
+}
+} // verus!
+verus! {
+// ---- map level: stored hashes are the hashes of the keys under the map's own hash builder (C01, C11, C14)
+pub open spec fn table_hashed<K, V, S>(tv: TV<(K, V)>, hb: S) -> bool {
+    forall|i: int| tv.items.contains_key(i) ==> tv.hashes[i] == spec_hash::<K, S>(hb, &(#[trigger] tv.items[i]).0)
+}
+impl<K, V, S> HashMap<K, V, S> {
+    pub open spec fn hashed(&self) -> bool {
+        table_hashed(self.table.table@, self.hash_builder)
+        && (self.table.leftovers matches Some(lo) ==> table_hashed(lo.table@, self.hash_builder))
+    }
+}
+impl<'a, K, V, S> VacantEntry<'a, K, V, S> {
+    pub open spec fn hash_ok(&self) -> bool { self.hash == spec_hash::<K, S>(self.table.hash_builder, &self.key) }
 }
 } // verus!
